@@ -69,7 +69,19 @@ type coordCfg struct {
 	Deltas    []time.Duration // advance events
 	CommitTPs []string        // partitions offered to commit events
 	Resub     bool            // offer rejoin with a changed subscription
+	Timing    bool            // timing run: reduced request alphabet (join{a}/rejoin/sync/heartbeat/leave, current generation only), finer advances
 	Depth     int
+}
+
+// coordTimingCfg: irregular heartbeat spacing. Advances from a quarter of a cleanup interval (1/12 of the
+// session) upwards, on and off the tick grid, so that accepted heartbeats close to the previous refresh, and
+// ticks falling between "previous refresh + session" and "last heartbeat + session", are all produced.
+func coordTimingCfg(depth, live, issued int) *coordCfg {
+	return &coordCfg{
+		Store: "mem", MaxLive: live, MaxIssued: issued, Depth: depth, Timing: true,
+		Deltas:    []time.Duration{250 * time.Millisecond, 500 * time.Millisecond, 1000 * time.Millisecond, 1500 * time.Millisecond, 2000 * time.Millisecond, 2500 * time.Millisecond, 3000 * time.Millisecond, 3500 * time.Millisecond},
+		CommitTPs: []string{"a:0"},
+	}
 }
 
 func coordDefaultCfg(store string, depth int) *coordCfg {
@@ -771,6 +783,23 @@ func (w *coordWorld) Enabled() []coordEv {
 	}
 	evs := make([]coordEv, 0, 64)
 	p := &w.cur
+	if w.cfg.Timing {
+		if len(p.IDs) < w.cfg.MaxLive && len(w.ids) < w.cfg.MaxIssued {
+			evs = append(evs, coordEv{K: coordKJoin, S: 1, R: int8(len(p.IDs))})
+		}
+		for i, id := range w.ids {
+			if p.has(id) {
+				m := int8(i + 1)
+				evs = append(evs, coordEv{K: coordKSync, M: m}, coordEv{K: coordKHb, M: m}, coordEv{K: coordKRejoin, M: m, S: -1}, coordEv{K: coordKLeave, M: m})
+			}
+		}
+		if p.Exists {
+			for _, d := range w.cfg.Deltas {
+				evs = append(evs, coordEv{K: coordKAdv, D: int16(d / time.Millisecond)})
+			}
+		}
+		return evs
+	}
 	if len(p.IDs) < w.cfg.MaxLive && len(w.ids) < w.cfg.MaxIssued {
 		for s := range coordSubsAlphabet {
 			for r := 0; r <= len(p.IDs); r++ {
@@ -1393,13 +1422,25 @@ func coordRunCheck(t *testing.T, id string, mk func() coordOracle, rule string, 
 	defer debug.SetGCPercent(debug.SetGCPercent(coordGOGC())) // replays are allocation-heavy and short-lived
 	deadline := vh.Deadline().Add(-10 * time.Second)
 	plan := coordPlan()
+	if id == "C43" && os.Getenv("VERIF_COORD_PLAN") == "" {
+		// the depth bound is never reached: the canonical state space of the timing alphabet is finite and the
+		// search runs to its fixpoint (last entry of new_states_per_depth is 0)
+		d, live, issued := 40, 2, 3
+		if vh.Thorough() {
+			live, issued = 3, 4
+		}
+		if v, err := strconv.Atoi(os.Getenv("VERIF_C43_TIMING_DEPTH")); err == nil {
+			d = v
+		}
+		plan.Runs = append([]*coordCfg{coordTimingCfg(d, live, issued)}, plan.Runs...)
+	}
 	var runsInfo []map[string]any
 	for _, cfg := range plan.NoMergeRuns { // first, so that a deadline cannot skip it (shard 0 only, small)
 		coordCrossCheck(t, rep, cfg, mk, deadline)
 	}
 	for _, cfg := range plan.Runs {
 		res := coordExplore(t, rep, cfg, mk, deadline)
-		info := map[string]any{"store": cfg.Store, "depth": cfg.Depth, "max_live": cfg.MaxLive, "max_issued": cfg.MaxIssued, "resubscribe": cfg.Resub,
+		info := map[string]any{"store": cfg.Store, "depth": cfg.Depth, "max_live": cfg.MaxLive, "max_issued": cfg.MaxIssued, "resubscribe": cfg.Resub, "timing_alphabet": cfg.Timing,
 			"commit_partitions": cfg.CommitTPs, "deltas_ms": coordDeltasMs(cfg), "new_states_per_depth": res.Levels}
 		if res.Capped != "" {
 			rep.Cap(fmt.Sprintf("%s depth %d: %s", cfg.Store, cfg.Depth, res.Capped))
@@ -1440,7 +1481,7 @@ func coordNontrivial(obs string) bool { return !strings.HasSuffix(obs, "#trivial
 func coordExplore(t *testing.T, rep *vh.Report, cfg *coordCfg, mk func() coordOracle, deadline time.Time) xstate.Result[coordEv] {
 	nviol := map[string]int{}
 	res := xstate.Run(xstate.Options[coordEv]{
-		Config: coordShardCfg(xstate.Config{MaxDepth: cfg.Depth, Deadline: deadline}, fmt.Sprintf("%s-d%d-r%t", cfg.Store, cfg.Depth, cfg.Resub)),
+		Config: coordShardCfg(xstate.Config{MaxDepth: cfg.Depth, Deadline: deadline}, fmt.Sprintf("%s-d%d-r%t-t%t", cfg.Store, cfg.Depth, cfg.Resub, cfg.Timing)),
 		Build:  func() xstate.System[coordEv] { return coordNewWorld(cfg, mk()) },
 		Wrap:   coordBubble(t),
 		Found: func(f xstate.Found[coordEv]) {
